@@ -164,3 +164,50 @@ func HarnessHealthExclusion() {
 	vCover(ref[0] == TargetStateUnhealthy, "healthy->unhealthy reachable")
 	vCover(len(lb.healthy) == k, "all healthy reachable")
 }
+
+// HarnessHealthRace (T2): probe completions of different targets overlap; once all have been delivered the rotation
+// holds exactly the targets whose latest probe succeeded, for every interleaving.
+func HarnessHealthRace() {
+	vT2(vParam("preemptions", 2), 2)
+	k := vParam("k", 2)
+	lb := &LoadBalancer{healthy: TargetList{}, all: TargetList{}}
+	for i := 0; i < k; i++ {
+		st := TargetStateHealthy
+		if vChoose("st"+vItoa(i), 2) == 1 {
+			st = TargetStateUnhealthy
+		}
+		t := vBareTarget("t"+vItoa(i), st)
+		t.stateConsumer = lb
+		lb.all = append(lb.all, t)
+	}
+	lb.updateHealthyTargets()
+	done := 0
+	for i := 0; i < k; i++ {
+		t := lb.all[i]
+		ok := vChoose("ok"+vItoa(i), 2) == 1
+		go func() {
+			t.HealthCheckCompleted(ok)
+			done++
+		}()
+	}
+	vBlockUntil(func() bool { return done == k })
+	want := TargetList{}
+	for _, t := range lb.all {
+		if t.State() == TargetStateHealthy {
+			want = append(want, t)
+		}
+	}
+	vAssert(len(lb.healthy) == len(want), "healthrace: after overlapping probe completions the rotation holds exactly the healthy targets")
+	for j := range want {
+		if j < len(lb.healthy) {
+			vAssert(lb.healthy[j] == want[j], "healthrace: after overlapping probe completions the rotation holds exactly the healthy targets")
+		}
+	}
+	got, _, err := lb.claimTarget(vPlainRequest("/"))
+	if len(want) > 0 {
+		vAssert(err == nil && got.State() == TargetStateHealthy, "healthrace: only a healthy target is claimed")
+	} else {
+		vAssert(err == ErrorNoHealthyTargets, "healthrace: no healthy target => none claimed")
+	}
+	vCover(len(want) == 1, "one healthy reachable")
+}
